@@ -294,6 +294,28 @@ func runC12(w *World, r *Report) {
 	}
 
 	// ---------- R4
+	c12R4(w, r, "C12-R4")
+
+	// ---------- R5
+	if vr := w.Func(pkgServer, "MetaCDC", "validCreateRequest"); vr != nil {
+		okID := false
+		eachInstr(vr, func(in ssa.Instruction) {
+			c, ok := in.(*ssa.Call)
+			if !ok || callSym(c.Common()) != (sym{"strings", "", "Contains"}) {
+				return
+			}
+			if s, isS := constString(c.Call.Args[1]); isS && s == "/" && strings.HasSuffix(w.accessPath(c.Call.Args[0]), ".TaskID") {
+				okID = true
+			}
+		})
+		r.Check(okID, "C12-R5", "validCreateRequest | task id without path separator", vr.Pos(), "a task id containing '/' is rejected", "a task id containing '/' is accepted and becomes a nested key segment: records of task a/b live under the prefix of task a")
+	} else {
+		r.Undecided("C12-R5", "validCreateRequest", 0, "anchor not found")
+	}
+}
+
+// c12R4 is shared with C05-R3: single-entry read-modify-write of a checkpoint; dropped entries frozen.
+func c12R4(w *World, r *Report, rule string) {
 	if up := w.Func(pkgStore, "", "UpdateTaskCollectionPosition"); up != nil {
 		pch := up.Params[4]
 		k := 0
@@ -322,7 +344,7 @@ func runC12(w *World, r *Report) {
 			if table == "TargetPositions" {
 				keyOK = strings.Contains(w.accessPath(mu.Key), ".DataPair.Key") && strings.HasPrefix(w.accessPath(mu.Key), "param:"+up.Params[7].Name())
 			}
-			r.Check(keyOK, "C12-R4", cons+" | key", mu.Pos(), "keyed by the given channel / the target position's own key", "the update writes an entry other than the given channel's: another channel's checkpoint is overwritten")
+			r.Check(keyOK, rule, cons+" | key", mu.Pos(), "keyed by the given channel / the target position's own key", "the update writes an entry other than the given channel's: another channel's checkpoint is overwritten")
 			// control-dependent on origin == nil || !origin.Dropped, origin = same map[same key]
 			frozen := false
 			for _, b := range up.Blocks {
@@ -352,29 +374,12 @@ func runC12(w *World, r *Report) {
 					}
 				}
 			}
-			r.Check(frozen, "C12-R4", cons+" | dropped entries frozen", mu.Pos(), "skipped when the stored entry is marked Dropped", "an entry marked dropped can be overwritten: the checkpoint of a collection whose drop was replayed moves again")
+			r.Check(frozen, rule, cons+" | dropped entries frozen", mu.Pos(), "skipped when the stored entry is marked Dropped", "an entry marked dropped can be overwritten: the checkpoint of a collection whose drop was replayed moves again")
 		})
 		if k < 3 {
-			r.Fail("C12-R4", "store.UpdateTaskCollectionPosition | update census", up.Pos(), fmt.Sprintf("only %d of 3 table updates found", k))
+			r.Fail(rule, "store.UpdateTaskCollectionPosition | update census", up.Pos(), fmt.Sprintf("only %d of 3 table updates found", k))
 		}
 	} else {
-		r.Undecided("C12-R4", "UpdateTaskCollectionPosition", 0, "anchor not found")
-	}
-
-	// ---------- R5
-	if vr := w.Func(pkgServer, "MetaCDC", "validCreateRequest"); vr != nil {
-		okID := false
-		eachInstr(vr, func(in ssa.Instruction) {
-			c, ok := in.(*ssa.Call)
-			if !ok || callSym(c.Common()) != (sym{"strings", "", "Contains"}) {
-				return
-			}
-			if s, isS := constString(c.Call.Args[1]); isS && s == "/" && strings.HasSuffix(w.accessPath(c.Call.Args[0]), ".TaskID") {
-				okID = true
-			}
-		})
-		r.Check(okID, "C12-R5", "validCreateRequest | task id without path separator", vr.Pos(), "a task id containing '/' is rejected", "a task id containing '/' is accepted and becomes a nested key segment: records of task a/b live under the prefix of task a")
-	} else {
-		r.Undecided("C12-R5", "validCreateRequest", 0, "anchor not found")
+		r.Undecided(rule, "UpdateTaskCollectionPosition", 0, "anchor not found")
 	}
 }
